@@ -25,7 +25,22 @@ def splitter_value(name, sort, prefix="spl_"):
     raise ValueError(sort)
 
 
+def typed_value(v, sort):
+    """a model value of an exact-real variable that stands for a Python float must be replayed as a float"""
+    if sort == "float" and isinstance(v, int) and not isinstance(v, bool):
+        return float(v)
+    return v
+
+
 class KeyedRun:
+    def fields(self, model, kwargs=None):
+        kw = self.kwargs if kwargs is None else kwargs
+        out = {}
+        for k, v in kw.items():
+            val = harness.model_value(model, v)
+            out[k] = typed_value(val, (self.typing or {}).get(k))
+        return out
+
     def __init__(self, prog, typing, text, gen, kwargs, env, spl, run):
         self.prog = prog
         self.typing = typing
